@@ -1083,6 +1083,77 @@ def r_ex_oob(m, rnd):
             yield '%s+%s' % (d.kind, k), apply
 
 
+def _bad_leaf(rt):
+    """(ctx, bad example value) list for a primitive position."""
+    out = []
+    n = rt.name
+    out.append(('kind', {'String': ('lit', 5), 'Boolean': ('lit', 'yes'), 'Bytes': ('lit', 5),
+                         'Timestamp': ('lit', 5)}.get(n, ('lit', 'text'))))
+    if n in PRIM_INTS:
+        out.append(('above_max', ('lit', rt.args.get('max_value', PRIM_INTS[n][1]) + 1)))
+        out.append(('below_min', ('lit', rt.args.get('min_value', PRIM_INTS[n][0]) - 1)))
+    if n == 'String':
+        if rt.args.get('max_length') is not None:
+            out.append(('too_long', ('lit', 'x' * (rt.args['max_length'] + 1))))
+        if rt.args.get('min_length'):
+            out.append(('too_short', ('lit', 'x' * (rt.args['min_length'] - 1))))
+        if rt.args.get('pattern'):
+            out.append(('pattern', ('lit', 'NOT OK 9!')))
+    if n == 'Timestamp':
+        out.append(('format', ('lit', 'not a date')))
+    return out
+
+
+def _bad_nested(m, t, ev, depth=0):
+    """One-step-invalid variants of example value ev (typed t), at every nesting position."""
+    if t is None or ev is None or depth > 4:
+        return
+    rt, _ = m.resolve_alias(t)
+    if ev[0] == 'lit' and rt.kind == 'prim':
+        for c, bad in _bad_leaf(rt):
+            yield rt.name + ':' + c, bad
+    elif ev[0] == 'list' and rt.kind == 'list':
+        items = list(ev[1])
+        mx, mn = rt.args.get('max_items'), rt.args.get('min_items')
+        if items and mx is not None:
+            yield 'list:too_many', ('list', items + [items[-1]] * (mx + 1 - len(items)))
+        if mn:
+            yield 'list:too_few', ('list', items[:mn - 1])
+        for i in sorted({0, len(items) - 1} if items else ()):
+            for c, bad in _bad_nested(m, rt.args['item'], items[i], depth + 1):
+                yield 'item>' + c, ('list', items[:i] + [bad] + items[i + 1:])
+    elif ev[0] == 'map' and rt.kind == 'map':
+        entries = list(ev[1])
+        kt = rt.args['key']
+        for i in sorted({0, len(entries) - 1} if entries else ()):
+            k, v = entries[i]
+            for c, bad in _bad_nested(m, rt.args['value'], v, depth + 1):
+                yield 'value>' + c, ('map', entries[:i] + [(k, bad)] + entries[i + 1:])
+            for c, bad in _bad_leaf(kt):
+                if c != 'kind' and isinstance(bad[1], str) and all(bad[1] != kk for kk, _ in entries):
+                    yield 'key:' + c, ('map', entries[:i] + [(bad[1], v)] + entries[i + 1:])
+
+
+@rule('example_nested_value_invalid')
+def r_ex_nested(m, rnd):
+    """Examples must fit their types at every depth: list items, map values and map
+    keys are held to the same constraints as a top-level field value."""
+    for epath, d, ex in examples_of(m):
+        if d.kind == 'struct' and d.subtypes:
+            continue
+        fs = m.struct_all_fields(d) if d.kind == 'struct' else m.union_all_fields(d, False)
+        for f in fs:
+            if f.name not in ex.values or f.type is None:
+                continue
+            for ctx, bad in _bad_nested(m, f.type, ex.values[f.name]):
+                if '>' not in ctx and not ctx.startswith(('list:', 'key:')):
+                    continue        # top-level leaves belong to example_wrong_kind / _out_of_bounds
+
+                def apply(m2, epath=epath, f=f, bad=bad):
+                    getex(m2, epath).values[f.name] = bad
+                yield d.kind + '+' + ctx, apply
+
+
 @rule('example_unknown_label')
 def r_ex_unknown_label(m, rnd):
     for epath, d, ex in examples_of(m):
